@@ -57,7 +57,7 @@ type script struct {
 	N       int     `json:"n"`
 	Deps    [][]int `json:"deps"`
 	Steps   []step  `json:"steps"`
-	QuietMs int     `json:"quiet_ms"` // the system counts as quiet when nothing observable has changed for this long (default 220)
+	QuietMs int     `json:"quiet_ms"` // the system counts as quiet when it has shown no activity and no change for this long (default 100)
 }
 
 const maxSubs = 3
@@ -77,7 +77,6 @@ var (
 	started     bool
 	pendingCfg  bool // a config change (or the start) has not been followed by a sync yet
 	nreg        int
-	msgCounter  int
 	db          = database.NewInterface(&database.Options{Local: true, Internal: true})
 	preAnnotate = "preset"
 )
@@ -135,7 +134,7 @@ func fidNum(id string) int {
 	return 99
 }
 
-// failure messages: "" = 0, "msg-<n>" = n (n >= 10: the ordinal of the fail step), "Failed to start module..." = 9
+// failure messages: "" = 0, "msg-<n>" = n (n = 10 + failure id), "Failed to start module..." = 9
 func msgNum(msg string) int {
 	switch {
 	case msg == "":
@@ -233,6 +232,24 @@ func observeMods() []modObs {
 	return out
 }
 
+// busy reports whether the module system shows activity: a config change handler (a worker of the subsystems module, also
+// while it sleeps through its debounce interval), a change notification worker of a module, a running control function.
+func busy() bool {
+	st := modules.GetStatus()
+	if st == nil {
+		return false
+	}
+	for name, ms := range st.Modules {
+		if name != "subsystems" && modNum(name) == 0 {
+			continue
+		}
+		if ms.Workers > 0 || ms.CtrlFuncRunning {
+			return true
+		}
+	}
+	return false
+}
+
 func mgmtFailed() bool {
 	st := modules.GetStatus()
 	if st == nil {
@@ -320,8 +337,8 @@ func js(v any) string {
 	return string(b)
 }
 
-// sync waits until nothing observable has changed for the quiet interval, then observes everything once, looks again a
-// moment later (a difference means: not quiet yet) and writes the observation.
+// sync waits until the module system has shown no activity (busy) and no change of a module state for the quiet interval,
+// then observes everything once, looks again a moment later (a difference means: not quiet yet) and writes the observation.
 func doSync() {
 	quiet := time.Duration(sc.QuietMs) * time.Millisecond
 	deadline := time.Now().Add(60 * time.Second)
@@ -331,7 +348,7 @@ func doSync() {
 		for time.Since(since) < quiet && time.Now().Before(deadline) {
 			time.Sleep(4 * time.Millisecond)
 			cur := js(observeMods()) + fmt.Sprint(mgmtFailed())
-			if cur != last {
+			if cur != last || busy() {
 				last = cur
 				since = time.Now()
 			}
@@ -341,7 +358,7 @@ func doSync() {
 		recs2, gets2, _ := observeDB()
 		mo := observeMods()
 		mg := mgmtFailed()
-		if time.Now().Before(deadline) && (js(mo)+fmt.Sprint(mg) != last || js(recs) != js(recs2) || js(gets) != js(gets2)) {
+		if time.Now().Before(deadline) && (busy() || js(mo)+fmt.Sprint(mg) != last || js(recs) != js(recs2) || js(gets) != js(gets2)) {
 			continue
 		}
 		mu.Lock()
@@ -428,7 +445,7 @@ func main() {
 		os.Exit(2)
 	}
 	if sc.QuietMs <= 0 {
-		sc.QuietMs = 220
+		sc.QuietMs = 100
 	}
 	dir, err := os.MkdirTemp("", "verif-subsys-")
 	if err != nil {
@@ -542,8 +559,8 @@ func main() {
 			if st.M < 1 || st.M > sc.N {
 				continue
 			}
-			msgCounter++
-			code := 10 + msgCounter
+			// a failure id stands for one title and message (doc of Module.Error)
+			code := 10 + st.Fid
 			id, msg := "f"+strconv.Itoa(st.Fid), "msg-"+strconv.Itoa(code)
 			switch st.Lvl {
 			case 1:
